@@ -240,7 +240,13 @@ func runC17(ch *Choices, cfg *RunCfg) (o *Outcome) {
 	}
 	// solo baseline of the caller's own work per call (statements), on a scratch pool
 	var baseGet, baseRet uint64
-	{
+	basePanic := ""
+	func() {
+		defer func() {
+			if r := recover(); r != nil {
+				basePanic = fmt.Sprint(r)
+			}
+		}()
 		resetClock(0)
 		p := c17NewPool(kind, size)
 		var objs []interface{}
@@ -265,6 +271,9 @@ func runC17(ch *Choices, cfg *RunCfg) (o *Outcome) {
 				baseGet = d
 			}
 		}
+	}()
+	if basePanic != "" {
+		return o.fail("c17/panic", "solo", "%s(size %d): a single caller's plain sequence (%d Gets, as many Returns, %d Gets) panicked: %s", c17KindNames[kind], size, size+2, size+1, basePanic)
 	}
 	limGet, limRet := 10*baseGet+100, 10*baseRet+100
 	if cfg.Strict {
@@ -448,11 +457,25 @@ func runC17(ch *Choices, cfg *RunCfg) (o *Outcome) {
 			// address, and a dropped, collected object's address could otherwise be reused by a fresh one
 			// and look like a resurrected object
 			var ever []interface{}
+			// a panic that leaves Get, Return or the use of a pooled object is a verdict, not harness trouble
+			safely := func(what string, f func()) (ok bool) {
+				defer func() {
+					if r := recover(); r != nil {
+						badMsgs[t.ID] = fmt.Sprintf("%s panicked: %v", what, r)
+						t.Emit(evBad, 0, 2)
+					}
+				}()
+				f()
+				return true
+			}
 			for _, op := range script {
 				switch op.kind {
 				case 'G':
 					t.Emit(evGetInv, 0, nil)
-					x := pools[op.pool].Get()
+					var x interface{}
+					if !safely("Get", func() { x = pools[op.pool].Get() }) {
+						return
+					}
 					held = append(held, x)
 					heldPool = append(heldPool, op.pool)
 					ever = append(ever, x)
@@ -465,7 +488,11 @@ func runC17(ch *Choices, cfg *RunCfg) (o *Outcome) {
 					t.Yield()
 				case 'U':
 					if useReal {
-						if msg := c17Use(sh, held[op.arg]); msg != "" {
+						var msg string
+						if !safely("a round trip with a pooled object", func() { msg = c17Use(sh, held[op.arg]) }) {
+							return
+						}
+						if msg != "" {
 							badMsgs[t.ID] = msg
 							t.Emit(evBad, 0, 1)
 						}
@@ -477,7 +504,10 @@ func runC17(ch *Choices, cfg *RunCfg) (o *Outcome) {
 					held = append(held[:op.arg:op.arg], held[op.arg+1:]...)
 					heldPool = append(heldPool[:op.arg:op.arg], heldPool[op.arg+1:]...)
 					t.Emit(evRetInv, objID(x), nil)
-					pools[pi].Return(x) // an object goes back to the pool it came from
+					// an object goes back to the pool it came from
+					if !safely("Return", func() { pools[pi].Return(x) }) {
+						return
+					}
 					t.Emit(evRetRet, 0, pi)
 				}
 			}
